@@ -10,7 +10,7 @@ use affinitree::linalg::affine::AffFunc;
 use affinitree::linalg::polyhedron::PolytopeStatus;
 use affinitree::pwl::afftree::AffTree;
 use affinitree::verif_hooks::{self, LpFault, LpRecord};
-use ndarray::Array1;
+use ndarray::{Array1, Array2};
 use std::collections::HashMap;
 use std::fmt::Write;
 use std::panic::{catch_unwind, AssertUnwindSafe};
@@ -106,6 +106,46 @@ fn fault_plan(rng: &mut Rng, enabled: bool) -> (String, HashMap<usize, LpFault>)
         s.push_str(&it);
     }
     (s, plan)
+}
+
+/// an operand whose root decision passes a cached witness of one of `t`'s terminals at a tiny Euclidean distance
+/// (2^-30) on the wrong side, with a large row norm (2^20): the raw violation 2^-10 is far above the containment
+/// tolerance, the normalised one far below it. Followed by an elimination this probes `phase_inh` / `contains`.
+fn witness_operand(rng: &mut Rng, t: &AffTree<2>, m: usize) -> Option<(String, AffTree<2>, usize)> {
+    use affinitree::pwl::node::NodeState;
+    let mut cands: Vec<(AffFunc, Array1<f64>)> = Vec::new();
+    for idx in t.tree.terminal_indices() {
+        let node = t.tree.tree_node(idx).ok()?;
+        if let NodeState::FeasibleWitness(ws) = &node.value.state {
+            if let Some(w) = ws.first() {
+                cands.push((node.value.aff.clone(), w.clone()));
+            }
+        }
+    }
+    if cands.is_empty() {
+        return None;
+    }
+    let (aff, w) = rng.pick(&cands).clone();
+    if aff.outdim() != m || m == 0 {
+        return None;
+    }
+    let y = aff.apply(&w);
+    let j = rng.below(m);
+    let k = (2.0f64).powi(20) * if rng.chance(1, 2) { 1.0 } else { -1.0 };
+    let delta = (2.0f64).powi(-10);
+    let mut mat = Array2::<f64>::zeros((1, m));
+    mat[[0, j]] = k;
+    let bias = ndarray::arr1(&[k * y[j] - delta]);
+    if !bias[0].is_finite() {
+        return None;
+    }
+    let p = 1 + rng.below(2);
+    let mut g = AffTree::<2>::from_aff(AffFunc::from_mats(mat, bias));
+    g.add_child_node(0, 0, rand_aff(rng, p, m)).ok()?;
+    g.add_child_node(0, 1, rand_aff(rng, p, m)).ok()?;
+    let mut s = String::from("tree ");
+    enc::afftree(&mut s, &g);
+    Some((s, g, p))
 }
 
 pub fn case(rng: &mut Rng, w: &Weights, tag: &str) -> String {
@@ -210,7 +250,11 @@ pub fn case(rng: &mut Rng, w: &Weights, tag: &str) -> String {
             run = Box::new(move |t| t.apply_func(&a));
         } else if { pick -= w.apply_func; pick < w.compose0 + w.compose1 } {
             let prune = pick >= w.compose0;
-            let (gname, g) = if rng.chance(2, 3) {
+            let wit = if tag == "C05" && rng.chance(1, 3) { witness_operand(rng, &t, m) } else { None };
+            let (gname, g) = if let Some((s, g, p)) = wit {
+                m = p;
+                (s, g)
+            } else if rng.chance(2, 3) {
                 let (name, g) = schema_tree(rng, m);
                 (format!("schema {}", name), g)
             } else {
@@ -428,8 +472,13 @@ pub fn net_case(rng: &mut Rng, thorough: bool) -> String {
     let n = 1 + rng.below(3);
     let mut out = String::new();
     write!(out, "HIST C01 {} ", enc::num(1e-8)).unwrap();
+    // a head directly on the single-terminal root, with comparisons that are decided on the whole input space
+    // (rows with identical weights and different biases, or zero weights): `compose::<true>` prunes at the root
+    let head_only = rng.chance(1, 8);
     // precondition
-    let pre: Option<(Polytope, AffTree<2>)> = if rng.chance(1, 2) {
+    let pre: Option<(Polytope, AffTree<2>)> = if head_only {
+        None
+    } else if rng.chance(1, 2) {
         let rows = 1 + rng.below(3);
         let p = match rng.below(4) {
             0 => Polytope::hypercube(n, 1.0 + rng.below(3) as f64),
@@ -472,7 +521,33 @@ pub fn net_case(rng: &mut Rng, thorough: bool) -> String {
     };
     let dim_start = dim;
     let maxhidden = if thorough { 3 } else { 2 };
-    let hidden = 1 + rng.below(maxhidden);
+    let hidden = if head_only { 0 } else { 1 + rng.below(maxhidden) };
+    if head_only {
+        let width = 2 + rng.below(2);
+        let mut a = rand_aff(rng, width, dim);
+        for i in 1..width {
+            match rng.below(3) {
+                0 => {
+                    for j in 0..dim {
+                        a.mat[[i, j]] = a.mat[[0, j]];
+                    }
+                }
+                1 => {
+                    for j in 0..dim {
+                        a.mat[[i, j]] = 0.0;
+                    }
+                }
+                _ => {}
+            }
+        }
+        layers.push(Layer::Linear(a));
+        dim = width;
+        if rng.chance(1, 2) {
+            layers.push(Layer::Argmax);
+        } else {
+            layers.push(Layer::ClassChar(rng.below(dim)));
+        }
+    }
     for _ in 0..hidden {
         let width = 1 + rng.below(3);
         layers.push(Layer::Linear(rand_aff(rng, width, dim)));
@@ -487,12 +562,12 @@ pub fn net_case(rng: &mut Rng, thorough: bool) -> String {
             }
         }
     }
-    if rng.chance(1, 2) {
+    if !head_only && rng.chance(1, 2) {
         let width = 1 + rng.below(3);
         layers.push(Layer::Linear(rand_aff(rng, width, dim)));
         dim = width;
     }
-    if dim >= 2 && rng.chance(1, 2) {
+    if !head_only && dim >= 2 && rng.chance(1, 2) {
         if rng.chance(1, 2) {
             layers.push(Layer::Argmax);
         } else {
